@@ -1,14 +1,19 @@
 ----------------------------- MODULE Gen_Imports -----------------------------
 (* Scenario generator of X03: for every context of every tree (ImportsCore!ContextsOf - the family the design check  *)
 (* spans) every single call of the pool, NPairs random pairs and NTriples random triples of calls, with every      *)
-(* renderer of the API.  One TREE line per tree (the modules the worker materialises), one SCEN line per scenario. *)
+(* renderer of the API, and EVERY pair that asks for one name twice (from two modules / through two methods).    *)
+(* One TREE line per tree (the modules the worker materialises), one SCEN line per scenario. *)
 EXTENDS ImportsCore, Json, Randomization
 CONSTANTS OutPkgs, NPairs, NTriples
 VARIABLES sc, done
 
-Contexts == UNION {ContextsOf(o) : o \in OutPkgs}
+Contexts == UNION {ContextsOf(o, BOOLEAN) : o \in OutPkgs}
 Pick(n, S) == RandomSubset(Min2(n, Cardinality(S)), S)
-CallSets(cx) == {{c} : c \in Pool(cx)} \cup Pick(NPairs, kSubset(2, Pool(cx))) \cup Pick(NTriples, kSubset(3, Pool(cx)))
+\* pairs that ask for the same name from two modules, or for the same (module, name) through two different methods
+Interact(cx, a, b) == \E ra \in Intent(cx, a), rb \in Intent(cx, b) : ra.n = rb.n /\ ra.n # "" /\ (ra.t # rb.t \/ a.op # b.op)
+CallSets(cx) == LET P2 == kSubset(2, Pool(cx)) IN
+                {{c} : c \in Pool(cx)} \cup {p \in P2 : \E a \in p, b \in p : a # b /\ Interact(cx, a, b)}
+                \cup Pick(NPairs, P2) \cup Pick(NTriples, kSubset(3, Pool(cx)))
 Scen(cx, cs, r) == [out |-> cx.tree.out, kind |-> cx.tree.kind, api |-> cx.api, where |-> cx.where, cur |-> cx.cur,
                     curpkg |-> cx.curpkg, mat |-> cx.mat, calls |-> SetToSeq(cs), render |-> r]
 Scenarios == UNION {{Scen(cx, cs, r) : cs \in CallSets(cx), r \in Renders(cx)} : cx \in Contexts}
